@@ -43,7 +43,7 @@ RULE = (
     'k, tolerated error) with broadcast_send raising; flavour "subtimeout": subscriber registration times out.  '
     'Non-trivial = at least one message was handled while the process was live; distinct = distinct event-log digest.'
 )
-BUDGET = {'quick': (15000, 55), 'thorough': (1_500_000, 600)}
+BUDGET = {'quick': (40000, 55), 'thorough': (1_500_000, 600)}
 COMPONENTS = {
     'real': common.COMPONENTS['real'] + [
         'Process.message_receive / broadcast_receive / _schedule_rpc', 'plumpy.process_comms.MessageBuilder, '
